@@ -66,6 +66,78 @@ type scenario struct {
 	Out  outcome `json:"out"`
 	raw  string
 	want []string
+	// V is the rendering variant: the kind of call that reaches every function of the
+	// family and the kind of deferred function that calls recover (same semantics in
+	// Unwind.tla, different code paths in the compiler and the run time).
+	V int
+}
+
+// Rendering variants.
+const (
+	vDirect    = iota // f(); defer func() { recover() }()
+	vMethExpr         // T.F(T{}); defer R.rec(R{}, k)           value receiver, method expression
+	vPtrExpr          // (*T).F(&T{}); defer (*R).prec(&R{}, k)  pointer receiver, method expression
+	vMethVal          // v := T{}.F; v(); defer recMV(k)         method value
+	vIface            // I(T{}).F(); defer recI.rec(k)           interface method, value receiver
+	vFuncVal          // v := f; v(); defer recNamed(k)          function value / declared function
+	nVariants
+)
+
+var variantNames = []string{"direct", "methodexpr", "ptrmethodexpr", "methodvalue", "interface", "funcvalue"}
+
+// fnDecl is the declaration header of function k of scenario n, callExpr the
+// expression that calls it (usable after `x :=` and after `defer`).
+func fnDecl(v, n, k int) string {
+	switch v {
+	case vMethExpr, vMethVal, vIface:
+		return fmt.Sprintf("type s%d_T%d struct{}\n\nfunc (s%d_T%d) F() (r int) {\n", n, k, n, k)
+	case vPtrExpr:
+		return fmt.Sprintf("type s%d_T%d struct{}\n\nfunc (*s%d_T%d) F() (r int) {\n", n, k, n, k)
+	}
+	return fmt.Sprintf("func s%d_F%d() (r int) {\n", n, k)
+}
+
+func fnExtra(v, n, k int) string {
+	switch v {
+	case vMethVal:
+		return fmt.Sprintf("var s%d_V%d = s%d_T%d{}.F\n\n", n, k, n, k)
+	case vIface:
+		return fmt.Sprintf("var s%d_V%d interface{ F() int } = s%d_T%d{}\n\n", n, k, n, k)
+	case vFuncVal:
+		return fmt.Sprintf("var s%d_V%d = s%d_F%d\n\n", n, k, n, k)
+	}
+	return ""
+}
+
+func callExpr(v, n, k int) string {
+	switch v {
+	case vMethExpr:
+		return fmt.Sprintf("s%d_T%d.F(s%d_T%d{})", n, k, n, k)
+	case vPtrExpr:
+		return fmt.Sprintf("(*s%d_T%d).F(&s%d_T%d{})", n, k, n, k)
+	case vMethVal, vFuncVal:
+		return fmt.Sprintf("s%d_V%d()", n, k)
+	case vIface:
+		return fmt.Sprintf("s%d_V%d.F()", n, k)
+	}
+	return fmt.Sprintf("s%d_F%d()", n, k)
+}
+
+// deferRec is the defer statement of a deferred function that recovers and prints.
+func deferRec(v, k int) string {
+	switch v {
+	case vMethExpr:
+		return fmt.Sprintf("\tdefer recT.rec(recT{}, %d)\n", k)
+	case vPtrExpr:
+		return fmt.Sprintf("\tdefer (*recT).prec(&recT{}, %d)\n", k)
+	case vMethVal:
+		return fmt.Sprintf("\tdefer recMV(%d)\n", k)
+	case vIface:
+		return fmt.Sprintf("\tdefer recI.rec(%d)\n", k)
+	case vFuncVal:
+		return fmt.Sprintf("\tdefer recNamed(%d)\n", k)
+	}
+	return fmt.Sprintf("\tdefer func() {\n\t\tv := recover()\n\t\tprintln(\"rec\", %d, pv(v))\n\t}()\n", k)
 }
 
 func (s *scenario) lines() []string {
@@ -108,6 +180,26 @@ var zero = 0
 var one = 1
 var nilmap map[int]int
 
+type recT struct{}
+
+func (recT) rec(k int) {
+	v := recover()
+	println("rec", k, pv(v))
+}
+
+func (*recT) prec(k int) {
+	v := recover()
+	println("rec", k, pv(v))
+}
+
+func recNamed(k int) {
+	v := recover()
+	println("rec", k, pv(v))
+}
+
+var recMV = recT{}.rec
+var recI interface{ rec(int) } = recT{}
+
 func has(s, sub string) bool {
 	for i := 0; i+len(sub) <= len(s); i++ {
 		if s[i:i+len(sub)] == sub {
@@ -145,7 +237,7 @@ func pv(v any) int {
 
 `
 
-func renderOps(b *strings.Builder, n int, ops []Op) {
+func renderOps(b *strings.Builder, v, n int, ops []Op) {
 	for _, op := range ops {
 		switch op.Kind {
 		case "emit":
@@ -163,7 +255,7 @@ func renderOps(b *strings.Builder, n int, ops []Op) {
 				b.WriteString("\tnilmap[1] = 1\n")
 			}
 		case "call":
-			fmt.Fprintf(b, "\t{\n\t\tx := s%d_F%d()\n\t\tprintln(\"c\", %d, x)\n\t}\n", n, op.A, op.A)
+			fmt.Fprintf(b, "\t{\n\t\tx := %s\n\t\tprintln(\"c\", %d, x)\n\t}\n", callExpr(v, n, op.A), op.A)
 		case "recover":
 			fmt.Fprintf(b, "\t{\n\t\tv := recover()\n\t\tprintln(\"rec\", %d, pv(v))\n\t}\n", op.A)
 		case "goexit":
@@ -174,7 +266,7 @@ func renderOps(b *strings.Builder, n int, ops []Op) {
 			case "emit":
 				fmt.Fprintf(b, "\tdefer func(x int) { println(\"d\", %d, x) }(r)\n", d.A)
 			case "rec":
-				fmt.Fprintf(b, "\tdefer func() {\n\t\tv := recover()\n\t\tprintln(\"rec\", %d, pv(v))\n\t}()\n", d.A)
+				b.WriteString(deferRec(v, d.A))
 			case "recnest":
 				fmt.Fprintf(b, "\tdefer func() {\n\t\tfunc() {\n\t\t\tv := recover()\n\t\t\tprintln(\"rec\", %d, pv(v))\n\t\t}()\n\t}()\n", d.A)
 			case "recbuiltin":
@@ -188,7 +280,7 @@ func renderOps(b *strings.Builder, n int, ops []Op) {
 			case "panic":
 				fmt.Fprintf(b, "\tdefer func() { %s }()\n", panicExpr(d.A))
 			case "call":
-				fmt.Fprintf(b, "\tdefer s%d_F%d()\n", n, d.A)
+				fmt.Fprintf(b, "\tdefer %s\n", callExpr(v, n, d.A))
 			}
 		}
 	}
@@ -199,14 +291,15 @@ func render(batch []*scenario) map[string]string {
 	b.WriteString(prelude)
 	for n, s := range batch {
 		for fi, ops := range s.P {
-			fmt.Fprintf(&b, "func s%d_F%d() (r int) {\n", n, fi+1)
-			renderOps(&b, n, ops)
+			b.WriteString(fnDecl(s.V, n, fi+1))
+			renderOps(&b, s.V, n, ops)
 			b.WriteString("\treturn\n}\n\n")
+			b.WriteString(fnExtra(s.V, n, fi+1))
 		}
 	}
 	b.WriteString("func run(n int) int {\n\tswitch n {\n")
 	for n := range batch {
-		fmt.Fprintf(&b, "\tcase %d:\n\t\treturn s%d_F1()\n", n, n)
+		fmt.Fprintf(&b, "\tcase %d:\n\t\treturn %s\n", n, callExpr(batch[n].V, n, 1))
 	}
 	b.WriteString("\t}\n\treturn -1\n}\n\n")
 	b.WriteString("func main() {\n\tdone := make(chan bool)\n\tgo func() {\n\t\tx := run(argN())\n\t\tprintln(\"ret\", x)\n\t\tdone <- true\n\t}()\n\t<-done\n}\n")
@@ -285,14 +378,68 @@ func classify(s *scenario) []string {
 	return keys
 }
 
+type fail struct {
+	s   *scenario
+	got gjs.Obs
+	why string
+}
+
+// wrapperShape: a deferred function that calls recover directly is a value-receiver
+// method reached through a method expression or an interface (the run time reaches
+// such a method through a forwarding wrapper, one JavaScript frame more).
+func wrapperShape(s *scenario) bool {
+	if s.V != vMethExpr && s.V != vIface {
+		return false
+	}
+	if s.hasOp(func(o Op) bool { return o.Kind == "defer" && o.D.Kind == "rec" }) {
+		return true
+	}
+	return s.hasOp(func(o Op) bool { return o.Kind == "defer" && o.D.Kind == "call" }) &&
+		s.hasOp(func(o Op) bool { return o.Kind == "recover" })
+}
+
 func runScenarios(c *core.Ctx, pool *gjs.Pool, scens []*scenario) {
+	fails, nd := evalScenarios(c, pool, scens)
+	c.Add("spec_guard_discards", nd)
+	c.Add("traces_validated_against_impl", len(scens)-nd)
+	// A failing family of the wrapper shape is re-evaluated in the direct variant: only
+	// if the same family is right there is the failure attributed to the known finding.
+	var again []*scenario
+	for _, f := range fails {
+		if wrapperShape(f.s) {
+			d := *f.s
+			d.V = vDirect
+			again = append(again, &d)
+		}
+	}
+	directOK := map[string]bool{}
+	if len(again) > 0 {
+		fails2, _ := evalScenarios(c, pool, again)
+		bad := map[string]bool{}
+		for _, f := range fails2 {
+			bad[f.s.raw] = true
+		}
+		for _, s := range again {
+			directOK[s.raw] = !bad[s.raw]
+		}
+	}
+	for _, f := range fails {
+		files := map[string]string{"scenario.json": f.s.raw + "\n", "variant.txt": variantNames[f.s.V] + "\n", "predicted.txt": strings.Join(f.s.want, "\n") + "\nend=" + f.s.Out.End + "\n", "observed.txt": f.got.Raw + "\nend=" + f.got.End + " " + f.got.Msg + "\n"}
+		for n, content := range render([]*scenario{f.s}) {
+			files["prog/"+n] = content
+		}
+		pj, _ := json.Marshal(f.s.P)
+		keys := classify(f.s)
+		if wrapperShape(f.s) && directOK[f.s.raw] {
+			keys = append(keys, "recover_in_deferred_value_receiver_method:"+variantNames[f.s.V])
+		}
+		c.Report(core.Case{Keys: keys, Summary: fmt.Sprintf("defer/panic/recover scenario %s (calls rendered as %s): compiled program %s (native Go agrees with the specification)", pj, variantNames[f.s.V], f.why), Files: files})
+	}
+}
+
+func evalScenarios(c *core.Ctx, pool *gjs.Pool, scens []*scenario) ([]fail, int) {
 	const per = 200
 	nb := (len(scens) + per - 1) / per
-	type fail struct {
-		s   *scenario
-		got gjs.Obs
-		why string
-	}
 	fails := make([][]fail, nb)
 	discards := make([]int, nb)
 	c.ParMap(nb, func(bi int) {
@@ -364,18 +511,11 @@ func runScenarios(c *core.Ctx, pool *gjs.Pool, scens []*scenario) {
 	for _, d := range discards {
 		nd += d
 	}
-	c.Add("spec_guard_discards", nd)
-	c.Add("traces_validated_against_impl", len(scens)-nd)
+	var all []fail
 	for _, fl := range fails {
-		for _, f := range fl {
-			files := map[string]string{"scenario.json": f.s.raw + "\n", "predicted.txt": strings.Join(f.s.want, "\n") + "\nend=" + f.s.Out.End + "\n", "observed.txt": f.got.Raw + "\nend=" + f.got.End + " " + f.got.Msg + "\n"}
-			for n, content := range render([]*scenario{f.s}) {
-				files["prog/"+n] = content
-			}
-			pj, _ := json.Marshal(f.s.P)
-			c.Report(core.Case{Keys: classify(f.s), Summary: fmt.Sprintf("defer/panic/recover scenario %s: compiled program %s (native Go agrees with the specification)", pj, f.why), Files: files})
-		}
+		all = append(all, fl...)
 	}
+	return all, nd
 }
 
 var allOps = []string{"emit", "set", "ret", "panic", "rte", "call", "recover", "goexit", "d.emit", "d.rec", "d.recnest", "d.recbuiltin", "d.setres", "d.recset", "d.repanic", "d.panic", "d.call"}
@@ -462,14 +602,26 @@ func Run(c *core.Ctx, pool *gjs.Pool) {
 		keys = keys[:max]
 	}
 	list := make([]*scenario, len(keys))
+	perVariant := make([]int, nVariants)
 	for i, k := range keys {
 		list[i] = scens[k]
+		// half of the families are rendered with direct calls and closures, the others
+		// with one of the other call / deferred-function kinds (by seed)
+		if h := rng.Intn(2 * (nVariants - 1)); h < nVariants-1 {
+			list[i].V = 1 + h
+		}
+		perVariant[list[i].V]++
 		if list[i].hasOp(func(o Op) bool {
 			return o.Kind == "defer" || o.Kind == "panic" || o.Kind == "rte" || o.Kind == "goexit"
 		}) {
 			c.Distinct(k)
 		}
 	}
+	pv := map[string]int{}
+	for v, n := range perVariant {
+		pv[variantNames[v]] = n
+	}
+	c.Set("families_per_rendering_variant", pv)
 	c.Set("evaluations", len(list))
 	c.Set("rule", "function families enumerated by TLC from UnwindScen.tla (exhaustive small bound + -simulate for three functions); one evaluation = one family executed once; distinct_nontrivial = distinct families containing a defer, panic, run-time error or Goexit")
 	c.Set("checker_cmd", "tlc UnwindScen (INVARIANT SemOK Emit); tlc RtePanics (INVARIANT Emit)")
